@@ -51,9 +51,14 @@ def run(tier, seed):
     for (so, se, mo, me) in rows[::3]:
         jobs.append(({'so': so, 'se': se, 'mo': mo, 'me': me, 'umask': 0o22, 'stdin': 'x', 'norun': True}, dict(bursts=[(1, 1)], exitcode=0)))
     xd = f'{wd}/x'; os.makedirs(xd, exist_ok=True)
+    # a job that runs into the time limit of its request (DURATION:PT1S, what echsd hands over for an event with a duration): ended by the
+    # deadline's signal, which is what the journal has to say, in every routing; what it wrote before is delivered
+    for (so, se, mo, me) in rows:
+        jobs.append(({'so': so, 'se': se, 'mo': mo, 'me': me, 'umask': 0o22, 'stdin': 'lim', 'shell': '/bin/sh'}, dict(bursts=[(1, 2), (2, 2)], sig=24, linger=4, limit=1)))
     def one(j):
         rq, v = j
-        return execrun.run_one(B, shim, xd, rq, v['bursts'], v.get('exitcode', 0), v.get('sig', 0), v.get('pad', 0), timeout=120)
+        return execrun.run_one(B, shim, xd, rq, v['bursts'], v.get('exitcode', 0), v.get('sig', 0), v.get('pad', 0), timeout=120,
+                               extra_vtodo=(['DURATION:PT%dS' % v['limit']] if v.get('limit') else ()), linger=v.get('linger', 0))
     with cf.ThreadPoolExecutor(max_workers=vlib.NCPU) as ex:
         recs = list(ex.map(one, jobs))
     trace = f'{wd}/exec.ndjson'
